@@ -3,6 +3,8 @@ package main
 import (
 	"go/ast"
 	"go/token"
+	"os"
+	"path/filepath"
 	"strings"
 )
 
@@ -28,7 +30,7 @@ var c07Tris = []string{"timestampsFullPrecision", "pageArith", "limitZeroAll", "
 	"addGuardCreated", "addGuardUpdated", "addGuardExpire", "addGuardValueType",
 	"updRefreshCreated", "updRefreshUpdated", "updRefreshValue", "updRefreshExpireOnFlag",
 	"typeChangeDetected", "valueShared", "flagsSticky", "setVoidClearsTyped", "initialisedAfterFill",
-	"refileGuardExpire", "patchExpiredReindexesAll", "claimPathsStandard",
+	"refileGuardExpire", "patchExpiredReindexesAll", "claimPathsStandard", "windowBoundsChecked", "claimLoserRefiled",
 	"getBeaconServesAllValueTypes", "getBeaconBuildsRequestedType"}
 
 func c07Run(fs *Facts) {
@@ -125,6 +127,8 @@ func c07Bounds(fs *Facts, f *File) {
 	}
 	c07Canon(fd, []string{"b", "fromTime", "toTime", "n", "fromNano", "toNano", "isAscending", "startIdx", "endIdx",
 		"l", "r", "m", "l", "r", "m", "l", "r", "m", "l", "r", "m"})
+	c07Canon(fd, []string{"b", "fromTime", "toTime", "n", "fromNano", "toNano", "hasFrom", "hasTo", "empty", "isAscending", "startIdx", "endIdx",
+		"l", "r", "m", "l", "r", "m", "l", "r", "m", "l", "r", "m"})
 	var split *ast.IfStmt
 	for _, st := range fd.Body.List {
 		if ifs, ok := st.(*ast.IfStmt); ok && f.Str(ifs.Cond) == "isAscending" {
@@ -140,12 +144,20 @@ func c07Bounds(fs *Facts, f *File) {
 	}
 	// the normalisation tail and the initial bounds must be the known ones
 	for _, want := range []string{"startIdx := 0", "endIdx := n - 1", "if n == 0 { return 0, -1 }",
-		"if startIdx > endIdx || startIdx >= n || endIdx < 0 { return 0, -1 }", "return startIdx, endIdx",
-		"fromNano = fromTime.UTC().UnixNano()", "toNano = toTime.UTC().UnixNano()"} {
+		"if startIdx > endIdx || startIdx >= n || endIdx < 0 { return 0, -1 }", "return startIdx, endIdx"} {
 		if !f.Contains(fd.Body, want) {
 			return
 		}
 	}
+	// how the two bounds become int64 nanoseconds: converted as they are (UnixNano wraps outside
+	// 1677…2262), or through WindowNanos, which recognises bounds that cannot be represented
+	raw := f.Contains(fd.Body, "if fromTime != nil { fromNano = fromTime.UTC().UnixNano() } if toTime != nil { toNano = toTime.UTC().UnixNano() }")
+	checked := f.Contains(fd.Body, "fromNano, toNano, hasFrom, hasTo, empty := WindowNanos(fromTime, toTime) if empty { return 0, -1 } if !hasFrom { fromTime = nil } if !hasTo { toTime = nil }") &&
+		!f.Contains(fd.Body, "UnixNano()") && c07WindowNanosShape(f)
+	if raw == checked {
+		return
+	}
+	c07WindowFact(fs, f, fd, checked)
 	desc, ok := split.Else.(*ast.BlockStmt)
 	if !ok || len(split.Body.List) != 2 || len(desc.List) != 2 {
 		return
@@ -426,9 +438,11 @@ func c07Guards(fs *Facts, f *File) {
 //
 //	if t.IsContentTypeChanged() { deleteTreasureFromBeacons; if type != void { addTreasureToBeacons } }
 //	else if t.IsExpirationTimeChanged() { delete from both expiration beacons; if exp != 0 { addToExpirationTimeBeacon } }
-func c07Save(fs *Facts, f *File) {
-	fd := f.Func("swamp", "SaveFunction")
-	if fd == nil {
+func c07Save(fs *Facts, f0 *File) {
+	fd0 := f0.Func("swamp", "SaveFunction")
+	// (one level of helper calls resolved: a `dropFromPair(asc, desc, key)` in place of the two deletes is the same code)
+	f, fd := c07Inlined(f0, "swamp", "SaveFunction", c07SaveVocabulary...)
+	if fd == nil || fd0 == nil {
 		return
 	}
 	c07Canon(fd, []string{"s", "t", "guardID", "existedTreasureObj", "wi", "inMem", "wi", "inMem"})
@@ -441,7 +455,7 @@ func c07Save(fs *Facts, f *File) {
 	if modified == nil || len(modified.Body.List) == 0 {
 		return
 	}
-	where := c07At(c07Swamp, f, modified)
+	where := c07At(c07Swamp, f0, fd0)
 	first, ok := modified.Body.List[0].(*ast.IfStmt)
 	if !ok || f.Str(first.Cond) != "t.IsContentTypeChanged()" {
 		return
@@ -491,6 +505,8 @@ func c07Save(fs *Facts, f *File) {
 				strings.Contains(fn, ".SortBy") || strings.HasPrefix(fn, "s.buildBeacon") || strings.HasSuffix(fn, "Beacon.Reset") ||
 				strings.HasSuffix(fn, "BeaconASC.Reset") || strings.HasSuffix(fn, "BeaconDESC.Reset") {
 				other++
+			} else if strings.HasPrefix(fn, "s.") && strings.Count(fn, ".") == 1 && !c07SaveHarmless[strings.TrimPrefix(fn, "s.")] {
+				other++ // a method of the swamp this extractor does not know: it may touch an index ("no" needs a closed world)
 			}
 		}
 	}
@@ -536,7 +552,36 @@ func c07LimitZero(fs *Facts, f *File) {
 		return
 	}
 	c07Canon(fd, []string{"s", "beaconType", "beaconOrderType", "from", "limit", "fromTime", "toTime", "selectedTreasures", "err", "returningTreasures", "d"})
-	if f.Contains(fd.Body, "if limit == 0 { limit = int32(s.beaconKey.Count()) }") {
+	// the statement LIST of the function is pinned: anything between these statements (a cap on the limit, a second
+	// offset …) is a different function
+	want := []string{
+		"atomic.StoreInt64(&s.lastInteractionTime, time.Now().UnixNano())",
+		"if from < 0 { from = 0 }", // a negative offset reads from the start (the model's `from_.toNat`)
+		"if limit == 0 { limit = int32(s.beaconKey.Count()) }",
+		"var selectedTreasures []treasure.Treasure",
+		"var err error",
+		"switch beaconType { case BeaconTypeKey: selectedTreasures, err = s.findInKeyBeacon(beaconOrderType, from, limit) case BeaconTypeExpirationTime: selectedTreasures, err = s.findInExpirationTimeBeacon(beaconOrderType, from, limit, fromTime, toTime) case BeaconTypeCreationTime: selectedTreasures, err = s.findInCreationTimeBeacon(beaconOrderType, from, limit, fromTime, toTime) case BeaconTypeUpdateTime: selectedTreasures, err = s.findInUpdateTimeBeacon(beaconOrderType, from, limit, fromTime, toTime) default: selectedTreasures, err = s.findInValueBeacon(beaconOrderType, beaconType, from, limit) }",
+		"if err != nil { return nil, err }",
+		"var returningTreasures []treasure.Treasure",
+		"for _, d := range selectedTreasures { returningTreasures = append(returningTreasures, d) }",
+		"return returningTreasures, nil",
+	}
+	var got []string
+	for _, st := range fd.Body.List {
+		got = append(got, c07StripHooks(f.Str(st)))
+	}
+	match := func(w []string) bool {
+		if len(w) != len(got) {
+			return false
+		}
+		for i := range w {
+			if w[i] != got[i] {
+				return false
+			}
+		}
+		return true
+	}
+	if match(want) {
 		fs.Tri("limitZeroAll", Yes, c07At(c07Swamp, f, fd))
 	}
 }
@@ -642,7 +687,26 @@ func c07Flags(fs *Facts, f *File) {
 		!f.Contains(f.Func("treasure", "SetExpirationTime").Body, "t.expirationTimeChanged = true") {
 		return
 	}
-	fs.Tri("typeChangeDetected", TriOf(setInSetter > 0), c07At(c07Treasure, f, firstSetter))
+	// "no" only in a closed world: no SetContent… setter mentions the flag, nor calls another method of the treasure
+	// (through which it could be raised)
+	tcd := TriOf(setInSetter > 0)
+	if setInSetter == 0 {
+		for _, d := range f.AST.Decls {
+			fd, ok := d.(*ast.FuncDecl)
+			if !ok || fd.Body == nil || !strings.HasPrefix(fd.Name.Name, "SetContent") {
+				continue
+			}
+			if f.Contains(fd.Body, "contentTypeChanged =") || f.Contains(fd.Body, "&t.contentTypeChanged") {
+				tcd = Unknown
+			}
+			for _, c := range f.CallsSuffix(fd.Body, "") {
+				if fn := f.Str(c.Fun); strings.HasPrefix(fn, "t.") && fn != "t.Guard.CanExecute" && !strings.HasPrefix(fn, "t.mu.") {
+					tcd = Unknown
+				}
+			}
+		}
+	}
+	fs.Tri("typeChangeDetected", tcd, c07At(c07Treasure, f, firstSetter))
 	if sv := f.Func("treasure", "SetContentVoid"); sv != nil {
 		c07Canon(sv, []string{"t", "guardID"})
 		src := f.Str(sv.Body)
@@ -655,7 +719,23 @@ func c07Flags(fs *Facts, f *File) {
 			fs.Tri("setVoidClearsTyped", No, c07At(c07Treasure, f, sv))
 		}
 	}
-	fs.Tri("flagsSticky", TriOf(cleared == 0), c07At(c07Treasure, f, f.Func("treasure", "SetExpirationTime")))
+	// the flags are cleared nowhere in the package
+	sticky := TriOf(cleared == 0)
+	if ents, err := os.ReadDir(filepath.Join(repoRoot, filepath.Dir(c07Treasure))); err != nil {
+		sticky = Unknown
+	} else if cleared == 0 {
+		for _, e := range ents {
+			nm := e.Name()
+			if e.IsDir() || !strings.HasSuffix(nm, ".go") || strings.HasSuffix(nm, "_test.go") || nm == filepath.Base(c07Treasure) {
+				continue
+			}
+			src, err := os.ReadFile(filepath.Join(repoRoot, filepath.Dir(c07Treasure), nm))
+			if err != nil || strings.Contains(string(src), "expirationTimeChanged") || strings.Contains(string(src), "contentTypeChanged") || strings.Contains(string(src), "contentChanged") {
+				sticky = Unknown
+			}
+		}
+	}
+	fs.Tri("flagsSticky", sticky, c07At(c07Treasure, f, f.Func("treasure", "SetExpirationTime")))
 }
 
 // the gateway hands the window and the three record timestamps on with their nanosecond part
@@ -684,6 +764,27 @@ func c07Timestamps(fs *Facts, f *File) {
 		strings.Contains(ks, "SetModifiedAt(guardID, "+pair+".GetUpdatedAt().AsTime())") &&
 		strings.Contains(ks, "SetExpirationTime(guardID, "+pair+".GetExpiredAt().AsTime())")
 	where := "app/server/gateway/gateway.go:" + itoa(f.Line(po))
+	// every handler (GetByIndex, GetByIndexStream, GetByIndexStreamFromMany, ShiftMatching) hands BOTH bounds of
+	// its own request to parseOptionalTimestamps
+	for _, rel := range []string{"app/server/gateway/gateway.go", "app/server/gateway/gateway_shift_matching.go"} {
+		g, err := Load(rel)
+		if err != nil {
+			ok = false
+			continue
+		}
+		for _, c := range g.Calls(g.AST, "parseOptionalTimestamps") {
+			if len(c.Args) != 2 {
+				ok = false
+				continue
+			}
+			a0, a1 := g.Str(c.Args[0]), g.Str(c.Args[1])
+			if !strings.HasSuffix(a0, ".GetFromTime()") || !strings.HasSuffix(a1, ".GetToTime()") ||
+				strings.TrimSuffix(a0, ".GetFromTime()") != strings.TrimSuffix(a1, ".GetToTime()") {
+				ok = false
+				where = rel + ":" + itoa(g.Line(c))
+			}
+		}
+	}
 	if ok {
 		fs.Tri("timestampsFullPrecision", Yes, where)
 	}
@@ -716,3 +817,49 @@ func c07BuildOrder(fs *Facts, f *File) {
 		fs.Tri("initialisedAfterFill", Yes, where)
 	}
 }
+
+// WindowNanos: a lower bound above the representable range or an upper bound below it makes the window
+// empty; a lower bound below / an upper bound above is dropped; everything else is UnixNano()
+func c07WindowNanosShape(f *File) bool {
+	fd := f.Func("", "WindowNanos")
+	if fd == nil {
+		return false
+	}
+	body := f.Str(fd.Body)
+	return c07InOrder(body,
+		"if from != nil { switch { case from.After(maxNanoTime): return 0, 0, false, false, true case !from.Before(minNanoTime): fromNano, hasFrom = from.UnixNano(), true } }",
+		"if to != nil { switch { case to.Before(minNanoTime): return 0, 0, false, false, true case !to.After(maxNanoTime): toNano, hasTo = to.UnixNano(), true } }",
+		"return") &&
+		strings.Contains(string(f.Src), "minNanoTime = time.Unix(0, math.MinInt64)") && strings.Contains(string(f.Src), "maxNanoTime = time.Unix(0, math.MaxInt64)")
+}
+
+// the shift path converts its bounds in timeBoundsNanos (gateway): it must do it the way the index read does
+func c07WindowFact(fs *Facts, f *File, fd *ast.FuncDecl, checked bool) {
+	const shiftGo = "app/server/gateway/gateway_shift_matching.go"
+	g, err := Load(shiftGo)
+	if err != nil {
+		return
+	}
+	tb := g.Func("", "timeBoundsNanos")
+	if tb == nil {
+		return
+	}
+	body := g.Str(tb.Body)
+	rawS := strings.Contains(body, "if from != nil { fromNano = from.UTC().UnixNano() } if to != nil { toNano = to.UTC().UnixNano() }")
+	checkedS := strings.Contains(body, "fn, tn, hasFrom, hasTo, empty := beacon.WindowNanos(from, to) if empty { return maxInt64, minInt64 } if hasFrom { fromNano = fn } if hasTo { toNano = tn }") &&
+		!strings.Contains(body, "UnixNano()")
+	switch {
+	case checked && checkedS:
+		fs.Tri("windowBoundsChecked", Yes, c07At(c07Beacon, f, fd))
+	case !checked && rawS:
+		fs.Tri("windowBoundsChecked", No, c07At(c07Beacon, f, fd))
+	}
+}
+
+// the functions the shapes of SaveFunction name
+var c07SaveVocabulary = []string{"addTreasureToBeacons", "deleteTreasureFromBeacons", "deleteTreasureIfBeaconInitialized",
+	"addToKeyBeacon", "addToExpirationTimeBeacon", "addToUpdateTimeBeacon", "addToCreationTimeBeacon", "addToValueBeacon",
+	"notifyBucketsInsert", "notifyBucketsUpdate", "notifyBucketsDelete", "sendEventToHydra", "sendSwampInfo", "fileWriterHandler", "buildBeacon"}
+
+// methods of the swamp that SaveFunction's modified branch calls and that do not touch an ordered index
+var c07SaveHarmless = map[string]bool{"notifyBucketsUpdate": true, "sendEventToHydra": true, "fileWriterHandler": true, "sendSwampInfo": true}
